@@ -9,7 +9,7 @@ use jrsonnet_gcmodule::{cc_dyn, Cc};
 use jrsonnet_interner::IBytes;
 use jrsonnet_ir::Expr;
 
-use crate::{function::NativeFn, typed::IntoUntyped, Context, Result, Thunk, Val};
+use crate::{function::NativeFn, Context, Result, Thunk, Val};
 
 mod spec;
 pub use spec::{ArrayLike, *};
@@ -73,19 +73,8 @@ impl ArrValue {
 
 	pub fn filter(self, filter: NativeFn!((Thunk<Val>) -> bool)) -> Result<Self> {
 		// TODO: ArrValue::Picked(inner, indexes) for large arrays
-		'eager: {
-			let mut out = Vec::new();
-			for i in self.iter() {
-				let Ok(i) = i else {
-					break 'eager;
-				};
-				if filter.call(IntoUntyped::into_lazy_untyped(i.clone()))? {
-					out.push(i);
-				}
-			}
-			return Ok(Self::eager(out));
-		};
-
+		// Elements are handed to the predicate unevaluated: forcing all of them up front
+		// would run elements that neither the predicate nor the consumer needs.
 		let mut out = Vec::new();
 		for i in self.iter_lazy() {
 			if filter.call(i.clone())? {
